@@ -129,6 +129,14 @@ def measure(job):
         out.append(("batch_exact", float(np.linalg.norm(yv - y_ref) / max(np.linalg.norm(y_ref), 1e-300) + np.linalg.norm(zv - z_ref) / max(np.linalg.norm(z_ref), 1e-300)), "nufft / nufft_adjoint with %s arguments vs C order" % lab))
         if not (np.array_equal(xv, xv0) and np.array_equal(cv, cv0)):
             out.append(("purity", 1.0, "nufft / nufft_adjoint modified a %s argument" % lab))
+    # scalar parameters given as NumPy scalars (an element of np.arange / rng.choice, a float32) are the same numbers
+    for os_n, w_n in ((np.float32(1.25), np.int64(4)), (np.float64(2.0), np.int32(4)), (1.5, np.float32(4.0))):
+        try:
+            yn = sp.nufft(xl, pts.copy(), oversamp=os_n, width=w_n)
+            yp = sp.nufft(xl, pts.copy(), oversamp=float(os_n), width=int(w_n))
+            out.append(("scalar_type", float(np.linalg.norm(yn - yp) / max(np.linalg.norm(yp), 1e-300)), "nufft with oversamp=%r, width=%r vs the builtin numbers" % (os_n, w_n)))
+        except Exception as e:
+            out.append(("scalar_type", 1.0, "nufft raised %s for oversamp=%r, width=%r" % (type(e).__name__, os_n, w_n)))
     # single-precision coordinates, used for several calls (forward twice, then the adjoint): not overwritten, same result
     c32 = pts.astype(np.float32)
     c32_0 = c32.copy()
@@ -206,6 +214,7 @@ def bounds_table():
     b["batch_exact"] = fx(1e-12)
     b["normal_exact"] = fx(1e-10)
     b["normal_toeplitz"] = fx(0.035)      # "within the interpolation accuracy of the NUFFT" at the defaults (complex64 PSF)
+    b["scalar_type"] = fx(1e-5)       # a float32 width / ratio goes through single-precision arithmetic for beta (measured 1.3e-7)
     b["determinism"] = 0
     b["purity"] = 0
     return b
